@@ -6,7 +6,8 @@
 // entry points are interposed and forwarded with seq_cst.
 // The read annotation runs just BEFORE the annotated load executes, so a release that lands between the two would be missed (one-off false report when
 // the reader is preempted in that window). Every annotated address is therefore remembered per thread and acquired AGAIN at the thread's next
-// annotated or interposed atomic operation (in libnstd's lock-free code a CAS/RMW always follows the volatile ticket read before data is touched).
+// annotated or interposed atomic operation, BEFORE that operation executes (the thread still holds whatever reference kept the address alive; after its
+// own decrement the word may be freed by another thread). In libnstd's lock-free code a CAS/RMW always follows the volatile ticket read before data is touched.
 #include <dlfcn.h>
 #include <stdint.h>
 #define NST __attribute__((no_sanitize_thread))
@@ -31,17 +32,17 @@ RD(1) RD(2) RD(4) RD(8) RD(16) WR(1) WR(2) WR(4) WR(8) WR(16)
   NST T __tsan_atomic##bits##_exchange(volatile void* a, T v, int mo) { \
     typedef T (*fn_t)(volatile void*, T, int); static fn_t real = 0; \
     if (!real) real = (fn_t)dlsym(RTLD_NEXT, "__tsan_atomic" #bits "_exchange"); \
-    (void)mo; T r = real(a, v, 5 /* seq_cst */); reacquire(); return r; } \
+    (void)mo; reacquire(); return real(a, v, 5 /* seq_cst */); } \
   NST T __tsan_atomic##bits##_fetch_add(volatile void* a, T v, int mo) { \
     typedef T (*fn_t)(volatile void*, T, int); static fn_t real = 0; \
     if (!real) real = (fn_t)dlsym(RTLD_NEXT, "__tsan_atomic" #bits "_fetch_add"); \
-    T r = real(a, v, mo); reacquire(); return r; } \
+    reacquire(); return real(a, v, mo); } \
   NST bool __tsan_atomic##bits##_compare_exchange_strong(volatile void* a, void* c, T v, int mo, int fmo) { \
     typedef bool (*fn_t)(volatile void*, void*, T, int, int); static fn_t real = 0; \
     if (!real) real = (fn_t)dlsym(RTLD_NEXT, "__tsan_atomic" #bits "_compare_exchange_strong"); \
-    bool r = real(a, c, v, mo, fmo); reacquire(); return r; }
+    reacquire(); return real(a, c, v, mo, fmo); }
 XCHG(8, unsigned char) XCHG(16, unsigned short) XCHG(32, unsigned int) XCHG(64, unsigned long)
 NST void __tsan_atomic_thread_fence(int mo) {
   typedef void (*fn_t)(int); static fn_t real = 0; if (!real) real = (fn_t)dlsym(RTLD_NEXT, "__tsan_atomic_thread_fence");
-  real(mo); reacquire(); }
+  reacquire(); real(mo); }
 }
